@@ -137,6 +137,16 @@ def finish(rep):
     known = [k for k in load_known() if k.get("property") == rep.pid and k.get("status") == "known"]
     known_keys = {k["key"]: k for k in known}
     exit_code = EXIT_OK
+    try:
+        from . import par as _par
+        if _par.FRAME["paths"]:
+            # history independence (C14): every symbolic path of this check left the package's module-level state unchanged?
+            rep.cov["frame_condition"] = {"paths_checked": _par.FRAME["paths"], "paths_changing_module_state": _par.FRAME["diffs"],
+                                          "note": "sufficient condition for independence of the call history; a failure here is a note, C14 decides"}
+            if _par.FRAME["diffs"]:
+                print(f"NOTE: module-level state changed across a call in {rep.pid}: {_par.FRAME['diffs'][0]}")
+    except Exception:  # noqa: BLE001
+        pass
     rdir = os.path.join(VERIF, "replays", rep.pid)
     os.makedirs(rdir, exist_ok=True)
     reported_known = set()
